@@ -88,6 +88,26 @@ def concurrent_writer_cases(rng, n):
     return out
 
 
+def duplex_cases(rng, n):
+    """full-duplex use of one processor: WritePacket(A) and the ReadPackets of B1.. on the same StreamProcessor, one direction
+    parked at a transport call while the other runs (compressed packets on both sides: they use the scratch buffers)"""
+    out = []
+    for _ in range(n):
+        a = rand_pkt(rng, 600)
+        while a["ty"] & 0x3F == 3:
+            a = rand_pkt(rng, 600)
+        a["compress"] = rng.random() < 0.8
+        a["rate"] = 0
+        bs = [rand_pkt(rng, 400) for _ in range(rng.choice([1, 2, 3]))]
+        for b in bs:
+            b["compress"] = rng.random() < 0.7
+            b["rate"] = 0
+        approx = sum(6 + len(p["body"]) // 2 + (200 if "cmd" in p else 0) for p in bs)
+        out.append({"mode": "dx", "pkts": [a] + bs, "cuts": rng.choice(cut_variants(rng, approx)), "park": rng.choice([1, 2, 2, 3, 3, 4, 6]),
+                    "pside": rng.choice(["w", "w", "r"])})
+    return out
+
+
 def header_straddle_cases(rng):
     """every cut offset 0..6 relative to every packet start of a 3-packet stream"""
     out = []
@@ -142,6 +162,11 @@ def big_cases(ctx, thorough):
                   {"ty": 0x20, "compress": False, "body": "0102"}]
             cuts = rng.choice([[], [1, 1, 1, 1, 1, 4096, 3], [rng.choice([1, 5, 1000, 4096, 65536]) for _ in range(50)]])
             out.append({"mode": "pk", "pkts": pk, "cuts": cuts, "big": True})
+    # the limit itself: bodies of exactly MaxPacketBodySize (and one less), compressed and not, built inside the harness
+    for n in (16777216 - 1, 16777216):
+        for comp in (False, True):
+            pk = [{"ty": 0x22, "compress": comp, "body": "", "fill": [rng.choice([0, 0x41]), n]}, {"ty": 0x20, "compress": False, "body": "0102"}]
+            out.append({"mode": "pk", "pkts": pk, "cuts": rng.choice([[], [1, 1, 1, 1, 1, 4096, 3]]), "big": True})
     return out
 
 
@@ -152,6 +177,9 @@ def case_value(c, o):
     if c["mode"] in ("pk", "ws"):
         pk = [[[p["compress"], p["ty"], hb(body)] for p, body in zip(c["pkts"], o["bodies"])]]
     if c["mode"] == "cw":
+        c = dict(c, cuts=[])
+    if c["mode"] == "dx":   # the outgoing direction: packet A, decoded one-shot
+        pk = [[[c["pkts"][0]["compress"], c["pkts"][0]["ty"], hb(o["bodies"][0])]]]
         c = dict(c, cuts=[])
     opt = lambda x: [] if x is None else [hb(x)]
     return [pk, hb(o["wire"]), list(c["cuts"]),
@@ -172,7 +200,7 @@ def shrink(binary, case):
     cur = json.loads(json.dumps(case))
     for _ in range(40):
         changed = False
-        if cur["mode"] == "cw":
+        if cur["mode"] in ("cw", "dx"):
             break
         if cur["mode"] in ("pk", "ws"):
             for i in range(len(cur["pkts"])):
@@ -230,6 +258,7 @@ def run(ctx, only_cases=None):
         cases += header_straddle_cases(ctx.rng)
         cases += ws_cases(ctx.rng, 120 if thorough else 15)
         cases += concurrent_writer_cases(ctx.rng, 200 if thorough else 24)
+        cases += duplex_cases(ctx.rng, 300 if thorough else 40)
     outs = vlib.run_harness(binary, cases, timeout=900)
     wires = [o["wire"] for c, o in zip(cases, outs) if c["mode"] in ("pk", "ws") and o.get("wire")][:: (2 if thorough else 6)]
     raw = raw_mutations(ctx, wires, 12 if thorough else 6) if only_cases is None else []
@@ -246,9 +275,14 @@ def run(ctx, only_cases=None):
             if nfail <= 3:
                 small = shrink(binary, c)
                 so = vlib.run_harness(binary, [small])[0]
-                kind = {"pk": "roundtrip", "ws": "roundtrip-websocket-%s" % c.get("side"), "cw": "concurrent-writers"}.get(c["mode"], "chunk-independence")
+                kind = {"pk": "roundtrip", "ws": "roundtrip-websocket-%s" % c.get("side"), "cw": "concurrent-writers", "dx": "full-duplex"}.get(c["mode"], "chunk-independence")
                 ctx.violation("%s" % kind, "real StreamProcessor: %s" % so["prop_msg"],
                               {"case": small, "observed": so["obs"], "wire": so.get("wire")})
+    # the incoming direction of every duplex case is a model case of its own (packets B1.. read under the case's chunking)
+    for c, o in list(zip(cases, outs)):
+        if c["mode"] == "dx" and o.get("in"):
+            cases.append({"mode": "pk", "pkts": c["pkts"][1:], "cuts": c["cuts"], "derived_from": "dx"})
+            outs.append(dict(o, wire=o["in"]["wire"], obs=o["in"]["obs"], bodies=o["in"]["bodies"]))
     # (ii) model vs implementation
     terms = [case_value(c, o) for c, o in zip(cases, outs)]
     mism = []
@@ -280,7 +314,7 @@ def run(ctx, only_cases=None):
         oks = sum(1 for x in o["obs"] if x["ok"])
         if oks >= 1 and c["cuts"] and len(o["wire"]) > 12:
             nontrivial.add(h)
-    dist = {"pk": sum(1 for c in cases if c["mode"] == "pk"), "websocket_adapter": sum(1 for c in cases if c["mode"] == "ws"), "concurrent_writers": sum(1 for c in cases if c["mode"] == "cw"),
+    dist = {"pk": sum(1 for c in cases if c["mode"] == "pk"), "websocket_adapter": sum(1 for c in cases if c["mode"] == "ws"), "concurrent_writers": sum(1 for c in cases if c["mode"] == "cw"), "full_duplex": sum(1 for c in cases if c["mode"] == "dx"),
             "rate_limited_packets": sum(1 for c in cases for p in c.get("pkts", []) if p.get("rate")), "raw_malformed": len(raw), "big_go_only": len(big),
             "packets_total": sum(len(c.get("pkts", [])) for c in cases),
             "compressed_packets": sum(1 for c in cases for p in c.get("pkts", []) if p["compress"]),
@@ -305,7 +339,8 @@ def run(ctx, only_cases=None):
     ctx.assumptions += ["Go compress/gzip: inflate(deflate b) = b (hypothesis of C01_roundtrip_any_chunking; exercised by the run)",
                         "encoding/json round-trips packet.CommandPacket (exercised by the run)",
                         "io.Reader contract: a Read returns n>0 or an error (chunk oracle never returns (0,nil))",
-                        "writeLock exclusion is modelled (Model/FramingLock.v) and exercised by the gated concurrent-writer cases; readLock: one ReadPacket is atomic in the model"]
+                        "writeLock exclusion is modelled (Model/FramingLock.v) and exercised by the gated concurrent-writer cases; readLock: one ReadPacket is atomic in the model",
+                        "the two directions of one processor share no scratch state (Model/FramingDuplex.v; exercised by the gated full-duplex cases)"]
     if broken is not None:
         raise broken
 
